@@ -178,17 +178,21 @@ def build_batches(batches, casedir, jobs=16):
     return live, bins, failures, time.time() - t0
 
 
-def run_binary(binpath, casefile, timeout=300, env_extra=None):
+def run_binary(binpath, casefile, timeout=None, env_extra=None):
     """run a batch binary on a case file; survives crashes/timeouts of single inputs by restarting
     after the offending line.  Returns output text."""
     lines = open(casefile).read().splitlines()
     env = dict(os.environ, **(env_extra or {}))
+    if timeout is None:
+        # a batch parses its inputs in milliseconds; the budget only has to tell a hang from a slow machine (a hang costs
+        # the whole budget once per hanging input): 45 s + 16 ms per input (quick ≈ 1 min, thorough ≈ 4 min)
+        timeout = 45 + 0.016 * sum(1 for l in lines if l.startswith('I '))
     out_all = []
     # positions of I lines with their (case, idx)
     start = 0
     guard = 0
     header = []
-    while start < len(lines) and guard < 50:
+    while start < len(lines) and guard < 15:
         guard += 1
         chunk = header + lines[start:]
         try:
